@@ -132,4 +132,7 @@ fn run(ctx: &mut Ctx) {
         st.class(&format!("base-flags={}", c.cfg.flag_count().min(5)));
         case_fn(s, c, st)
     });
+    if ctx.tier == crate::runner::Tier::Thorough {
+        ctx.fuzz_campaign("fuzz_lang", 4000);
+    }
 }
